@@ -4318,14 +4318,16 @@ where
         chars.len()
     };
 
-    if check(new)? {
-        let mut tail = chars.split_off(index);
-        let mut middle = new.chars().collect::<Vec<char>>();
+    let mut tail = chars.split_off(index);
+    let mut middle = new.chars().collect::<Vec<char>>();
 
-        chars.append(&mut middle);
-        chars.append(&mut tail);
+    chars.append(&mut middle);
+    chars.append(&mut tail);
 
-        Ok(chars.iter().collect())
+    // validate the result, not only the inserted fragment: "]]" + ">" or "-" + "-" are harmless alone
+    let joined: String = chars.iter().collect();
+    if check(joined.as_str())? {
+        Ok(joined)
     } else {
         Err(error::Error::InvalidData(new.to_string()))
     }
